@@ -442,16 +442,6 @@ func runCase(c Case, st *ev.Stats) error {
 			return fmt.Errorf("%s returns %d records, more than ever matched (%d); %s", c.Cfg.Backend, len(all), len(ref), desc())
 		}
 	}
-	// known finding: after an unpaced burst the background GC races the out-of-order write-behind of a
-	// persistent back-end and older records survive BELOW a hole (the newest MaxRecords are intact)
-	if c.Cfg.Backend != "memory" && !c.Cfg.Pace && len(all) > wantN && kf.IsKnown("C17-stale-records-below-a-hole") {
-		if staleBelowHole(all, ref, wantN) {
-			if st != nil {
-				st.Known("C17-stale-records-below-a-hole", fmt.Sprintf("%s MaxRecords %d batch %d: %s", c.Cfg.Backend, max, c.Cfg.Batch, desc()))
-			}
-			return nil
-		}
-	}
 	// stored == newest suffix of the reference, field by field
 	stored := make([]*refRec, len(all)) // aligned with all (newest first)
 	for i, r := range all {
@@ -555,34 +545,6 @@ func runCase(c Case, st *ev.Stats) error {
 		}
 	}
 	return nil
-}
-
-// staleBelowHole: the newest keep records are exactly the reference's newest, the rest is an ordered
-// subsequence of the older reference records with at least one missing in between.
-func staleBelowHole(all []*amhist.MemoryRecord, ref []*refRec, keep int) bool {
-	same := func(a *amhist.MemoryRecord, r *refRec) bool {
-		return a.Time != nil && a.Time.MTimeSum == r.sum && teq(a.Time.MTimeTracked, r.tracked) && a.Time.MTimeRecordDiffSum == r.rdiff && a.Time.MTimeDiffSum == r.diff
-	}
-	j := len(ref) - 1
-	hole := false
-	for i, a := range all {
-		if i < keep {
-			if j < 0 || !same(a, ref[j]) {
-				return false
-			}
-			j--
-			continue
-		}
-		for j >= 0 && !same(a, ref[j]) {
-			j--
-			hole = true
-		}
-		if j < 0 {
-			return false
-		}
-		j--
-	}
-	return hole
 }
 
 func teq(a, b am.Time) bool {
